@@ -567,6 +567,44 @@ Section Spec.
     end.
   Definition s_abs (a : mv) : sres :=
     match a with MInt z => SVal (MInt (Z.abs z)) | MFlt f => SVal (MFlt (fabs f)) | _ => SErr end.
+  Definition s_toboolean (a : mv) : sres :=
+    match a with
+    | MBool _ => SVal a
+    | MStr s => if bytes_eqb s (codes "true") then SVal (MBool true)
+                else if bytes_eqb s (codes "false") then SVal (MBool false) else SErr
+    | _ => SErr
+    end.
+  (* unary + and - *)
+  Definition s_plus (a : mv) : sres := if is_mnum a then SVal a else SErr.
+  Definition s_negate (a : mv) : sres :=
+    match a with MInt z => SVal (MInt (- z)) | MFlt f => SVal (MFlt (fneg f)) | _ => SErr end.
+  (* number predicates: on the double a number denotes *)
+  Definition s_isnan (a : mv) : sres :=
+    if is_mnum a then SVal (MBool (fis_nan (dbl a))) else match a with MNull => SVal (MBool false) | _ => SErr end.
+  Definition s_isinfinite (a : mv) : sres := SVal (MBool (is_mnum a && fis_inf (dbl a))).
+  Definition s_isfinite (a : mv) : sres := SVal (MBool (is_mnum a && negb (fis_inf (dbl a)))).
+  Definition s_isnormal (a : mv) : sres :=
+    SVal (MBool (is_mnum a && match dbl a with B754_finite _ m _ _ => (2 ^ 52 <=? Z.pos m) | _ => false end)).
+  (* the math functions: a function of the double the argument(s) denote; [fn] is the correctly rounded
+     operation (Flocq) for floor ceil trunc round rint nearbyint fabs sqrt fmax fmin, libm otherwise *)
+  Definition s_math1 (fn : float -> float) (a : mv) : sres := if is_mnum a then SVal (MFlt (fn (dbl a))) else SErr.
+  Definition s_math2 (fn : float -> float -> float) (a b : mv) : sres :=
+    if is_mnum a then (if is_mnum b then SVal (MFlt (fn (dbl a) (dbl b))) else SErr) else SErr.
+  Definition s_math3 (fn : float -> float -> float -> float) (a b c : mv) : sres :=
+    if is_mnum a then (if is_mnum b then (if is_mnum c then SVal (MFlt (fn (dbl a) (dbl b) (dbl c))) else SErr) else SErr) else SErr.
+  (* trimming white space (unicode.IsSpace) from a valid UTF-8 string *)
+  Fixpoint drop_sp (rs : list N) : list N :=
+    match rs with r :: rs' => if is_space_rune r then drop_sp rs' else rs | [] => [] end.
+  Definition s_trim (left right : bool) (a : mv) : option sres :=
+    match a with
+    | MStr s => if valid_utf8 s then
+                  let rs := runes s in
+                  let rs := if left then drop_sp rs else rs in
+                  let rs := if right then rev (drop_sp (rev rs)) else rs in
+                  Some (SVal (MStr (encode_runes rs)))
+                else None
+    | _ => Some SErr
+    end.
   Definition s_cmp (test : comparison -> bool) (a b : mv) : sres := SVal (MBool (test (mcmp a b))).
 
   Definition spec_call (name : string) (v : jv) (args : list jv) : option sres :=
@@ -585,6 +623,16 @@ Section Spec.
         else if is "ascii_downcase" then s_ascii false a else if is "ascii_upcase" then s_ascii true a
         else if is "utf8bytelength" then Some (s_utf8bytelength a)
         else if is "tonumber" then s_tonumber a else if is "abs" then Some (s_abs a)
+        else if is "toboolean" then Some (s_toboolean a)
+        else if is "_plus" then Some (s_plus a) else if is "_negate" then Some (s_negate a)
+        else if is "isnan" then Some (s_isnan a) else if is "isinfinite" then Some (s_isinfinite a)
+        else if is "isfinite" then Some (s_isfinite a) else if is "isnormal" then Some (s_isnormal a)
+        else if is "ltrim" then s_trim true false a else if is "rtrim" then s_trim false true a
+        else if is "trim" then s_trim true true a
+        else if is "floor" then Some (s_math1 (fnearbyint mode_DN) a) else if is "ceil" then Some (s_math1 (fnearbyint mode_UP) a)
+        else if is "trunc" then Some (s_math1 (fnearbyint mode_ZR) a) else if is "round" then Some (s_math1 (fnearbyint mode_NA) a)
+        else if is "rint" then Some (s_math1 (fnearbyint mode_NE) a) else if is "nearbyint" then Some (s_math1 (fnearbyint mode_NE) a)
+        else if is "fabs" then Some (s_math1 fabs a) else if is "sqrt" then Some (s_math1 fsqrt a)
         else None
     | [x] =>
         if is "has" then Some (s_has a x)
